@@ -3,7 +3,11 @@
 d=$1; id=$2; tier=${3:-quick}
 if [ -n "$(git -C /repo status --porcelain --untracked-files=no)" ]; then echo "refusing: /repo has uncommitted changes"; exit 2; fi
 git -C /repo apply $d/patch.diff || { echo "patch does not apply"; exit 2; }
+cp /verif/evidence/$id.json /tmp/evidence-$id.keep 2>/dev/null
 /verif/check $id $tier > $d/check-$id-$tier.log 2>&1; code=$?
 git -C /repo checkout -- .
+# the evidence file must describe a run on the unchanged tree
+[ -f /tmp/evidence-$id.keep ] && mv /tmp/evidence-$id.keep /verif/evidence/$id.json
+rm -f /verif/replays/$id-*.json
 grep -E "^(VIOLATION|why:|C[0-9]+ (quick|thorough):|inconclusive)" $d/check-$id-$tier.log | cut -c1-400
 echo "exit=$code"
